@@ -257,7 +257,8 @@ def run_case(case, tier, seed):
                 if len(res['samples']) < 3 and v.how not in ('trivial', 'syntactic'):
                     res['samples'].append(dict(case=case.name, path=pi, claim=cl.name, verdict='unsat', how=v.how,
                                                seconds=round(v.seconds, 3),
-                                               obligation=_clip(_claim_text(cl)), path_condition=_trace_txt(p)))
+                                               obligation=_clip(_claim_text(cl)), path_condition=_trace_txt(p),
+                                               smt2=(solve.smt2_for(p, cl) if len(res['samples']) == 0 else None)))
             elif v.status == 'unknown':
                 res['inconclusive'].append(dict(case=case.name, path=pi, claim=cl.name, why=v.how))
             else:
